@@ -69,7 +69,7 @@ macro_rules! tab {
 tab!(q_h02tab__ttxt_k0, 4, 0, Kind::Ttxt, []);
 tab!(q_h02tab__ttxt_k1_len1, 4, 1, Kind::Ttxt, [1]);
 tab!(q_h02tab__ttxt_k1_len0, 4, 1, Kind::Ttxt, [0]);
-tab!(q_h02tab__ttxt_k2_len11, 5, 2, Kind::Ttxt, [1, 1]);
+tab!(t_h02tab__ttxt_k2_len11, 5, 2, Kind::Ttxt, [1, 1]);
 tab!(t_h02tab__ttxt_k2_len12, 5, 2, Kind::Ttxt, [1, 2]);
 tab!(t_h02tab__ttxt_k2_len01, 5, 2, Kind::Ttxt, [0, 1]);
 tab!(t_h02tab__ttxt_k2_len10, 5, 2, Kind::Ttxt, [1, 0]);
